@@ -112,9 +112,11 @@ theorem vf_bind {α : Type} {env : Env N} {ctx : Ctx N} {cur : Row N} {e : Expr 
 
 /-- one step: a failing operand in a strict position fails the parent, on the row itself and on the
     row with the marker -/
-theorem strict_step (env : Env N) (ctx : Ctx N) (cur : Row N) {c p : Expr N} (hp : StrictPos c p)
+theorem strict_step (env : Env N) (ctx : Ctx N) (hh : ctx.hard = false) (cur : Row N) {c p : Expr N} (hp : StrictPos c p)
     (hf : VF2 env ctx cur c) : EF2 env ctx cur p := by
   have hidem := withMarker_idem cur ctx.data
+  have hctx : ({ ctx with hard := false } : Ctx N) = ctx := by
+    cases ctx; simp only [] at hh; subst hh; rfl
   -- it suffices to show the one-row statement for a row whose marker row also fails
   suffices H : ∀ row : Row N, VF env ctx row c → VF env ctx (withMarker row ctx.data) c → EF env ctx row p by
     refine ⟨H cur hf.1 hf.2, H _ hf.2 ?_⟩
@@ -233,10 +235,10 @@ theorem strict_step (env : Env N) (ctx : Ctx N) (cur : Row N) {c p : Expr N} (hp
     simp only [evalExpr]
     exact isError_bind _ (evalArgs_vf env ctx row xs c h h1)
   | funcArg name args e h =>
-    simp only [evalExpr]
+    simp only [evalExpr, hctx]
     exact isError_bind _ (evalArgs_vf env ctx row args c h h1)
   | funcArgScoped name args e h =>
-    simp only [evalExpr]
+    simp only [evalExpr, hctx]
     exact isError_bind _ (evalArgs_vf env ctx row args c h h1)
   | caseCond c' v rest els =>
     simp only [evalExpr, evalWhens, bind, Except.bind]
@@ -261,19 +263,26 @@ inductive StrictIn : Expr N → Expr N → Prop
   | step {c m p : Expr N} : StrictIn c m → StrictPos m p → StrictIn c p
 
 /-- **a failing operand at any depth of strict nesting fails the whole expression** -/
-theorem strict_in_error (env : Env N) (ctx : Ctx N) (cur : Row N) {c p : Expr N} (h : StrictIn c p)
+theorem strict_in_error (env : Env N) (ctx : Ctx N) (hh : ctx.hard = false) (cur : Row N) {c p : Expr N} (h : StrictIn c p)
     (hf : VF2 env ctx cur c) : EF2 env ctx cur p := by
   induction h with
-  | single hp => exact strict_step env ctx cur hp hf
-  | step _ hp ih => exact strict_step env ctx cur hp ih.toVF2
+  | single hp => exact strict_step env ctx hh cur hp hf
+  | step _ hp ih => exact strict_step env ctx hh cur hp ih.toVF2
 
 /-- … and hence the WHERE of a SELECT over a flat table: **the query returns an error, no rows** -/
 theorem where_nested_fault_propagates (env : Env N) (data : Row N) (t : String) (rows : List (Row N))
     (c p : Expr N) (hin : StrictIn c p) (sel : List (SelItem N)) (ht : Val.get data t = .arr (rows.map Val.obj))
     (r : Row N) (hr : r ∈ rows)
     (hf : ∀ ctx : Ctx N, ctx.data = data → VF2 env ctx r c) :
-    IsError (execQuery env data {} (.select [] false sel (.table [t] "" t) p [] (.bool true) [] none none)) :=
-  where_fault_propagates env data t rows p sel ht r hr fun ctx hc => (strict_in_error env ctx r hin (hf ctx hc)).1
+    IsError (execQuery env data {} (.select [] false sel (.table [t] "" t) p [] (.bool true) [] none none)) := by
+  have hE : ("" : String).isEmpty = true := by decide
+  simp only [execQuery, prepare, evalCtes, evalFrom, cteNames, List.append_nil, List.not_mem_nil,
+    if_false, readPath_single, ht, asArray, processAlias, ok_bind, pure, Except.pure,
+    hE, if_true, Bool.false_eq_true]
+  apply isError_bind
+  apply execLevel_error _ _ rows r hr
+  apply isError_bind
+  exact (strict_in_error env _ rfl r hin (hf _ rfl)).1
 
 /-- the same for an expression of the select list: one failing operand on one row, and the query
     returns an error instead of rows with a patched-in NULL -/
@@ -296,7 +305,7 @@ theorem select_nested_fault_propagates [LawfulNum N] (env : Env N) (data : Row N
   apply isError_bind
   obtain ⟨e1, he1⟩ := evalSel_error env
     { data := data, hard := false, grouped := false, matched := rows.map Val.obj, fromLen := (rows.map Val.obj).length }
-    r sel [] e key alias hm (strict_in_error env _ r hin (hf _ rfl)).1
+    r sel [] e key alias hm (strict_in_error env _ rfl r hin (hf _ rfl)).1
   refine mapE_error _ _ (Val.obj r) (List.mem_map.mpr ⟨r, hr, rfl⟩) e1 ?_
   simp only [he1, bind, Except.bind]
 
@@ -394,10 +403,10 @@ theorem exists_error (env : Env N) (ctx : Ctx N) (cur : Row N) (q : Query N)
   exact ⟨e, rfl⟩
 
 /-- `x IN (SELECT …)` with a failing sub-query: the sub-query sits in a strict position of the comparison -/
-theorem in_subquery_error (env : Env N) (ctx : Ctx N) (cur : Row N) (x : Expr N) (q : Query N)
+theorem in_subquery_error (env : Env N) (ctx : Ctx N) (hh : ctx.hard = false) (cur : Row N) (x : Expr N) (q : Query N)
     (h1 : IsError (execQuery env (withMarker cur ctx.data) {} q)) :
     EF env ctx cur (.cmp .in_ x (.subq q)) :=
-  (strict_step env ctx cur (.cmpR .in_ x (.subq q))
+  (strict_step env ctx hh cur (.cmpR .in_ x (.subq q))
     ⟨(subquery_error env ctx cur q h1).toVF,
      (subquery_error env ctx _ q (by rw [withMarker_idem]; exact h1)).toVF⟩).1
 
